@@ -28,7 +28,7 @@ import (
 func init() {
 	core.Extend("C05", "family typed: a column of typed cells (DATETIME, FLOAT, INTEGER, STRING, BOOLEAN) written earlier in the session by UPDATE-with-cast / INSERT / REPLACE / ALTER ADD DEFAULT x "+
 		"{file table, file table after COMMIT, temporary table, STDIN} x "+fmt.Sprint(len(c05TypedReaders))+" data-changing statements that compare, sort, aggregate, key on or compute from that column x "+
-		"{read at once, read after further values of every type were created}; oracle: reference table (typed cells, rv.Op predicates), affected count, log line, table re-read after unrelated evaluation, values in the committed file",
+		"{read at once, read after further values of every type were created} (thorough: also 6 sequences of two writers); oracle: reference table (typed cells, rv.Op predicates), affected count, log line, table re-read after unrelated evaluation, values in the committed file",
 		c05TypedRun)
 }
 
@@ -439,7 +439,9 @@ func c05TypedWrite(k *c05TypedKind, writer, tab string, t *c05TypedTab) (sql, co
 	switch writer {
 	case "update-cast":
 		for _, r := range t.Rows {
-			r[ki] = k.val(r[ki].S)
+			if r[ki].K == rv.Str {
+				r[ki] = k.val(r[ki].S)
+			}
 		}
 		return fmt.Sprintf("UPDATE %s SET k = %s(k)", tab, k.Cast), "k"
 	case "insert":
@@ -456,7 +458,11 @@ func c05TypedWrite(k *c05TypedKind, writer, tab string, t *c05TypedTab) (sql, co
 	case "add-default":
 		t.Cols = append(t.Cols, "k2")
 		for i, r := range t.Rows {
-			t.Rows[i] = append(r, k.val(r[ki].S))
+			if r[ki].K == rv.Str {
+				t.Rows[i] = append(r, k.val(r[ki].S))
+			} else {
+				t.Rows[i] = append(r, r[ki])
+			}
 		}
 		return fmt.Sprintf("ALTER TABLE %s ADD k2 DEFAULT %s(k)", tab, k.Cast), "k2"
 	}
@@ -548,7 +554,17 @@ func c05TypedOne(c *core.Ctx, dir string, k c05TypedCase) {
 		tab = "STDIN"
 	}
 	ref := c05TypedInitial(kind, k.Table)
-	wsql, col := c05TypedWrite(kind, k.Writer, tab, ref)
+	wsql, col := "", "k"
+	for i, w := range strings.Split(k.Writer, "+") {
+		one, wcol := c05TypedWrite(kind, w, tab, ref)
+		if i > 0 {
+			wsql += "; "
+		}
+		wsql += one
+		if wcol != "k" {
+			col = wcol
+		}
+	}
 	rsql := rd.SQL(kind, tab, col)
 	sig := func(what string) string {
 		return "typed:" + k.Kind + ":" + strings.Fields(rsql)[0] + ":" + what
@@ -672,11 +688,18 @@ func c05TypedOne(c *core.Ctx, dir string, k c05TypedCase) {
 	}
 }
 
-func c05TypedCases() []c05TypedCase {
+// thorough: two writers one after the other (cells written at different times, texts and typed cells mixed)
+var c05TypedWriterPairs = []string{"insert+update-cast", "insert+replace", "replace+add-default", "update-cast+insert", "insert+add-default", "update-cast+replace"}
+
+func c05TypedCases(thorough bool) []c05TypedCase {
 	var out []c05TypedCase
+	writers := c05TypedWriters
+	if thorough {
+		writers = append(append([]string{}, writers...), c05TypedWriterPairs...)
+	}
 	for _, k := range c05TypedKinds {
 		for _, t := range c05TypedTables {
-			for _, w := range c05TypedWriters {
+			for _, w := range writers {
 				for _, r := range c05TypedReaders {
 					for _, churn := range []bool{false, true} {
 						out = append(out, c05TypedCase{"typed", k.Name, t, w, r.Name, churn})
@@ -690,7 +713,7 @@ func c05TypedCases() []c05TypedCase {
 
 func c05TypedRun(c *core.Ctx) {
 	dir := core.Scratch("c05typed")
-	for i, k := range c05TypedCases() {
+	for i, k := range c05TypedCases(c.Thorough()) {
 		if !c.Mine(int64(i)) {
 			continue
 		}
